@@ -28,6 +28,7 @@ func (gen *generator) createGlobalEntities() error {
 	//      and indirect functions), and function declarations and definitions
 	//      (without bodies but with types).
 	for ident, old := range gen.old.globals {
+		verifTrace(gen, "createGlobal", ident.Ident())
 		new, err := gen.newGlobalEntity(ident, old)
 		if err != nil {
 			return errors.WithStack(err)
@@ -198,6 +199,7 @@ func (gen *generator) translateGlobalEntities() error {
 	// 4b1. Translate AST global declarations and definitions, indirect symbol
 	//      definitions, and function declarations and definitions to IR.
 	for ident, old := range gen.old.globals {
+		verifTrace(gen, "translateGlobal", ident.Ident())
 		v, ok := gen.new.globals[ident]
 		if !ok {
 			panic(fmt.Errorf("unable to locate global identifier %q", ident.Ident()))
